@@ -501,6 +501,16 @@ def hsl_float_products(f):
     return [r * 255, g * 255, b * 255]
 
 
+def is_css3_function(f):
+    """argument kinds of CSS3 Color: rgb[a](N,N,N[,N]) / rgb[a](P,P,P[,N]) / hsl[a](N,P,P[,N])"""
+    kinds = [k for k, _ in f[1]]
+    if len(kinds) == 4 and kinds[3] != "N":
+        return False
+    if f[0].lower().startswith("hsl"):
+        return kinds[:3] == ["N", "P", "P"]
+    return kinds[:3] in (["N", "N", "N"], ["P", "P", "P"])
+
+
 def oracle_fn(f, impl):
     spec, oor, tol = css3_function(f)
     if "err" in impl:
@@ -749,8 +759,7 @@ def run(ctx):
         ctx.broken("correspondence", "hsl binary64 stage bound",
                    "|binary64 r*255 - exact r*255| = %g > %g on %s" % (float(hsl_delta[0]), float(HSL_DELTA), hsl_delta[1]))
     for f, i in zip(fns, fimpl):
-        if len({k for k, _ in f[1][:3]}) > 1 or (f[0].lower().startswith("hsl") and [k for k, _ in f[1][:3]] != ["N", "P", "P"]) \
-                or (len(f[1]) == 4 and f[1][3][0] != "N"):
+        if not is_css3_function(f):
             continue                                   # not a CSS3 colour: nothing to report
         d, oor = oracle_fn(f, i)
         n_oor += oor
@@ -803,7 +812,7 @@ def run(ctx):
                     return {"kind": "hash", "mz": mz, "text": t, "fails": d}
             fb = gen_functions(ctx, False)
             for f, i in zip(fb, ctx.pool_map(impl_color, [fn_text(f) for f in fb], procs=6, chunksize=128)):
-                if len({k for k, _ in f[1][:3]}) > 1:
+                if not is_css3_function(f):
                     continue
                 d, _ = oracle_fn(f, i)
                 if d and not ctx.match_known(d + " :: " + json.dumps(fn_text(f))):
